@@ -205,6 +205,15 @@ class SolverRoles:
         if len(trackers) != 2:
             raise AnalysisError(f'{rel}: expected two DependencyTracker attributes, found {trackers}')
 
+        def tracker_of_getter(getter):
+            # public API: unmet_input_dependencies() / unmet_field_dependencies() name their tracker
+            try:
+                gf = core.func(rel, self.name, getter)
+            except AnalysisError:
+                return None
+            hits = {self_attr(n) for n in ast.walk(gf.node) if isinstance(n, ast.Attribute) and self_attr(n) in trackers}
+            return hits.pop() if len(hits) == 1 else None
+
         def tracker_in(handler):
             for c in calls_in(handler):
                 if call_name(c) == 'add_unmet':
@@ -212,10 +221,10 @@ class SolverRoles:
                     if a in trackers:
                         return a
             return None
-        self.field_tracker = tracker_in(self.handlers['UnmetDependency'])
-        self.input_tracker = tracker_in(self.handlers['MissingInput'])
+        self.field_tracker = tracker_of_getter('unmet_field_dependencies') or tracker_in(self.handlers['UnmetDependency'])
+        self.input_tracker = tracker_of_getter('unmet_input_dependencies') or tracker_in(self.handlers['MissingInput'])
         if not self.field_tracker or not self.input_tracker or self.field_tracker == self.input_tracker:
-            raise AnalysisError(f'{rel}: trackers not told apart by their handlers')
+            raise AnalysisError(f'{rel}: trackers not told apart by their getters or handlers')
         # input store: attribute assigned from the first constructor parameter
         ins = [a for a, vs_ in assigns.items() for v in vs_ if isinstance(v, ast.Name) and len(params) > 1 and v.id == params[1]]
         if len(ins) != 1:
@@ -233,8 +242,15 @@ class SolverRoles:
             raise AnalysisError(f'{rel}: refused flag not identified ({rf})')
         self.refused = rf[0]
         # unimplemented list: appended to in the FieldNotImplemented handler
-        ul = [self_attr(c.func.value) for c in calls_in(self.handlers['FieldNotImplemented']) if call_name(c) == 'append' and self_attr(c.func.value)]
-        if len(ul) != 1:
+        ul = []
+        try:
+            gf = core.func(rel, self.name, 'unimplemented_fields')
+            ul = [self_attr(r.value) for r in ast.walk(gf.node) if isinstance(r, ast.Return) and r.value is not None and self_attr(r.value)]
+        except AnalysisError:
+            pass
+        if len(set(ul)) != 1:
+            ul = [self_attr(c.func.value) for c in calls_in(self.handlers['FieldNotImplemented']) if call_name(c) == 'append' and self_attr(c.func.value)]
+        if len(set(ul)) != 1:
             raise AnalysisError(f'{rel}: unimplemented list not identified ({ul})')
         self.unimplemented = ul[0]
         # solved flag: what solve returns
@@ -244,12 +260,7 @@ class SolverRoles:
             raise AnalysisError(f'{rel}: solve() does not return one attribute ({rets})')
         self.solved = rets[0]
         # solving set: tested with `not in` in the UnmetDependency handler
-        ss = []
-        for n in ast.walk(self.handlers['UnmetDependency']):
-            if isinstance(n, ast.Compare) and isinstance(n.ops[0], (ast.NotIn, ast.In)):
-                a = self_attr(n.comparators[0])
-                if a and isinstance(assigns.get(a, [None])[0], ast.Call) and call_name(assigns[a][0]) == 'set':
-                    ss.append(a)
+        ss = [a for a, vs_ in assigns.items() if isinstance(vs_[0], ast.Call) and call_name(vs_[0]) == 'set' and not vs_[0].args]
         if len(set(ss)) != 1:
             raise AnalysisError(f'{rel}: solving set not identified ({ss})')
         self.solving = ss[0]
@@ -266,7 +277,13 @@ class SolverRoles:
         # maps
         def dict_attr_indexed_in(fn_node, key_pred):
             return None
-        self.field_map = self._map_indexed_by(self.handlers['UnmetDependency'], 'dependency')
+        fm = []
+        try:
+            sol = core.func(rel, self.name, 'solution')
+            fm = [self_attr(a) for c in calls_in(sol.node) if call_name(c) == 'to_config' for a in c.args if self_attr(a)]
+        except AnalysisError:
+            pass
+        self.field_map = fm[0] if len(fm) == 1 else self._map_indexed_by(self.handlers['UnmetDependency'], 'dependency')
         self.forms = 'forms'
         self.all_attrs = set(assigns)
 
